@@ -226,7 +226,8 @@ class Rig:
         self.p._system_counter = 1000  # deterministic own system bytes, far from the ranges used for inbound messages
         self.c = self.p._connection
         self.c.rig = self
-        self.link = False
+        self.connected = False  # a transport connection exists (the protocol's receiver thread runs)
+        self.link = False       # ... and the session is selected
         self.fed = 0
         self.done = 0
         self._n = 0
@@ -304,21 +305,26 @@ class Rig:
         if box:
             raise box[0]
 
-    def select(self):
-        if not self.link:
+    def connect(self):
+        """the transport connection comes up (no Select yet)"""
+        if not self.connected:
             self.bounded(lambda: self.c.on_connected({"source": self.c}), "on_connected")
-            self.link = True
+            self.connected = True
+
+    def select(self):
+        self.connect()
         self.feed(secsgem.hsms.HsmsMessage(secsgem.hsms.HsmsSelectReqHeader(self.CONTROL + self.fresh()), b""))
+        self.link = True
 
     def lose(self):
-        if not self.link:
+        if not self.connected:
             return
 
         def go():
             self.c.on_disconnecting({"source": self.c})
             self.c.on_disconnected({"source": self.c})
 
-        self.link = False
+        self.link = self.connected = False
         self.bounded(go, "on_disconnecting/on_disconnected")
 
     def data_message(self, s, f, w, system, body=b""):
@@ -338,7 +344,7 @@ class Rig:
         done, _ = actor_submit(run)
         end = time.monotonic() + WAIT
         while not done.wait(0.0005):
-            if not self.link and self.p._send_queue.qsize() > q0:
+            if not self.connected and self.p._send_queue.qsize() > q0:
                 if not done.wait(0.003):  # the sender has queued its block and waits for a receiver thread that does not run
                     actor_abandon()
                     return True
